@@ -68,6 +68,8 @@ pub struct AggregateState {
     pub max_int: Option<i64>,
     pub min_float: Option<f64>,
     pub max_float: Option<f64>,
+    pub min_text: Option<String>,
+    pub max_text: Option<String>,
 }
 
 impl AggregateState {
@@ -80,6 +82,8 @@ impl AggregateState {
             max_int: None,
             min_float: None,
             max_float: None,
+            min_text: None,
+            max_text: None,
         }
     }
 
@@ -92,11 +96,22 @@ impl AggregateState {
             AggregateFunction::Count { distinct: _ } => {
                 self.count += 1;
             }
+            AggregateFunction::CountColumn { column, distinct: _ } => {
+                if row.get(*column).is_some_and(|v| !v.is_null()) {
+                    self.count += 1;
+                }
+            }
             AggregateFunction::Sum { column } => {
                 if let Some(val) = row.get(*column) {
                     match val {
-                        Value::Int(i) => self.sum += i,
-                        Value::Float(f) => self.sum_float += f,
+                        Value::Int(i) => {
+                            self.sum += i;
+                            self.count += 1;
+                        }
+                        Value::Float(f) => {
+                            self.sum_float += f;
+                            self.count += 1;
+                        }
                         _ => {}
                     }
                 }
@@ -125,6 +140,11 @@ impl AggregateState {
                         Value::Float(f) => {
                             self.min_float = Some(self.min_float.map_or(*f, |m| m.min(*f)));
                         }
+                        Value::Text(s) => {
+                            if self.min_text.as_deref().is_none_or(|m| s.as_bytes() < m.as_bytes()) {
+                                self.min_text = Some(s.to_string());
+                            }
+                        }
                         _ => {}
                     }
                 }
@@ -138,6 +158,11 @@ impl AggregateState {
                         Value::Float(f) => {
                             self.max_float = Some(self.max_float.map_or(*f, |m| m.max(*f)));
                         }
+                        Value::Text(s) => {
+                            if self.max_text.as_deref().is_none_or(|m| s.as_bytes() > m.as_bytes()) {
+                                self.max_text = Some(s.to_string());
+                            }
+                        }
                         _ => {}
                     }
                 }
@@ -147,9 +172,13 @@ impl AggregateState {
 
     pub(crate) fn finalize(&self, func: &AggregateFunction) -> Value<'static> {
         match func {
-            AggregateFunction::Count { .. } => Value::Int(self.count),
+            AggregateFunction::Count { .. } | AggregateFunction::CountColumn { .. } => {
+                Value::Int(self.count)
+            }
             AggregateFunction::Sum { .. } => {
-                if self.sum != 0 {
+                if self.count == 0 {
+                    Value::Null
+                } else if self.sum != 0 {
                     Value::Int(self.sum)
                 } else if self.sum_float != 0.0 {
                     Value::Float(self.sum_float)
@@ -171,6 +200,8 @@ impl AggregateState {
                     Value::Int(m)
                 } else if let Some(m) = self.min_float {
                     Value::Float(m)
+                } else if let Some(m) = &self.min_text {
+                    Value::Text(std::borrow::Cow::Owned(m.clone()))
                 } else {
                     Value::Null
                 }
@@ -180,6 +211,8 @@ impl AggregateState {
                     Value::Int(m)
                 } else if let Some(m) = self.max_float {
                     Value::Float(m)
+                } else if let Some(m) = &self.max_text {
+                    Value::Text(std::borrow::Cow::Owned(m.clone()))
                 } else {
                     Value::Null
                 }
